@@ -1,0 +1,8 @@
+//go:build verif
+
+package miner
+
+// VerifGetSleepTime exposes the unexported getSleepTime to the C13 correspondence harness.
+func (m *Miner) VerifGetSleepTime(mineHeight uint32, distance uint32, parentTime int64, currentTime int64) (int64, int64) {
+	return m.getSleepTime(mineHeight, distance, parentTime, currentTime)
+}
